@@ -222,7 +222,7 @@ Section Defers.
   Definition one_panic_call (st : glob * ctx) (d : dfr) : glob * ctx :=
     let '(g, c) := st in
     let g1 := fst (child (set_anc g (c_panic c :: g_anc g)) (child_ctx c d)) in
-    (set_anc g1 (g_anc g), set_panic c (hd None (g_anc g1))).
+    (set_anc g1 (tl (g_anc g1)), set_panic c (hd None (g_anc g1))).
 
   Lemma invoke_panic_list_ok : forall l g c, child_ok ->
     invoke_list child true g c l = (fold_left one_panic_call l (g, c), None).
